@@ -202,15 +202,21 @@ TYPE_SEQS = [
     (['vector', '<', 'DataView', '>'], 'vec_DataView'),
     (['vector', '<', 'DataArray', '>'], 'vec_DataArray'),
     (['vector', '<', 'Variant', '>'], 'vec_Variant'),
+    (['vector', '<', 'Source', '>'], 'vec_Source'),
+    (['vector', '<', 'Section', '>'], 'vec_Section'),
+    (['queue', '<', 'SourceCont', '>'], 'queue_SourceCont'),
+    (['Filter', '<', 'Source', '>', '::', 'type'], 'SourceFilterFn'),
+    (['Filter', '<', 'Section', '>', '::', 'type'], 'SectionFilterFn'),
     (['NDSizeBase', '<', 'T', '>'], 'NDSize'),
     (['NDSizeBase'], 'NDSize'),
     (['NDSize', '::', 'value_type'], 'ndsize_t'),
     (['string'], 'nstring'),
 ]
 
-OPT_TYPES = {'opt_ndsize': 'ndsize', 'opt_pair': 'pair', 'opt_double': 'double', 'opt_string': 'string'}
+OPT_TYPES = {'opt_ndsize': 'ndsize', 'opt_pair': 'pair', 'opt_double': 'double', 'opt_string': 'string', 'opt_H5Group': 'H5Group'}
+OPT_PAYLOAD_CLASS = {'opt_H5Group': 'H5Group'}
 VEC_TYPES = {'vec_double', 'vec_ndsize', 'vec_string', 'vec_opt_pair', 'vec_pair', 'vec_dpair',
-             'vec_Dimension', 'vec_NDSize', 'vec_int', 'vec_DataView', 'vec_nstr', 'vec_DataArray', 'vec_Variant'}
+             'vec_Dimension', 'vec_NDSize', 'vec_int', 'vec_DataView', 'vec_nstr', 'vec_DataArray', 'vec_Variant', 'vec_Source', 'vec_Section'}
 STRUCT_TYPES = set(OPT_TYPES) | VEC_TYPES | {'pair_ndsize', 'pair_double', 'NDSize', 'nstring'}
 
 QUALIFIERS = {'std', 'boost', 'nix', 'util', 'base', 'check', 'hdf5', 'h5x'}
@@ -368,6 +374,11 @@ def r_optionals(ctx, toks):
         # 'none' literal (boost::none after qualifier drop)
         if t.k == 'id' and t.t == 'none' and prev_sig() in ('=', 'return', '==', '!='):
             out.append(Tok('id', 'OPT_NONE', t.ws)); i += 1; fire(ctx, 'opt-none'); continue
+        # return boost::make_optional(X);  in a function returning an optional  ->  return opt_some_T(X);
+        if t.k == 'id' and t.t == 'make_optional' and prev_sig() == 'return' and i + 1 < n and toks[i + 1].t == '(' and ctx.ret in OPT_TYPES:
+            out.append(Tok('id', 'opt_some_' + OPT_TYPES[ctx.ret], t.ws)); i += 1; fire(ctx, 'make-optional-return'); continue
+        if t.k == 'id' and t.t in OPT_TYPES and i + 2 < n and toks[i + 1].t == '(' and toks[i + 2].t == ')' and prev_sig() in ('return', '=', '(', ','):
+            out.append(Tok('id', 'OPT_NONE_' + OPT_TYPES[t.t], t.ws)); i += 3; fire(ctx, 'opt-default-temporary'); continue
         # declaration without initialiser: opt_T name ;
         if t.k == 'id' and t.t in OPT_TYPES and i + 2 < n and toks[i + 1].k == 'id' and toks[i + 2].t == ';':
             out.extend([t, toks[i + 1], P('='), Tok('id', 'OPT_NONE_' + OPT_TYPES[t.t], ' ')])
@@ -415,6 +426,8 @@ def r_optionals(ctx, toks):
                     elif toks[j].t in ')]}' and toks[j].k == 'punct': d -= 1
                     j += 1
                 rhs = toks[i + 2:j]
+                if len(rhs) > 3 and rhs[0].t == 'make_optional' and rhs[1].t == '(' and match_close(rhs, 1) == len(rhs) - 1:
+                    rhs = rhs[2:-1]; fire(ctx, 'make-optional')          # boost::make_optional(x): the assignment below wraps x
                 out.append(t); out.append(toks[i + 1])
                 if len(rhs) == 1 and rhs[0].t == 'none':
                     out.append(Tok('id', 'OPT_NONE_' + OPT_TYPES[ty], ' ')); fire(ctx, 'opt-none')
@@ -468,6 +481,10 @@ def r_vectors(ctx, toks):
                 if m == 'empty':
                     out.extend([P('(', t.ws), Tok('id', t.t, ''), P(acc, ''), Tok('id', 'n', ''), P('=='), Tok('num', '0', ' '), P(')', '')])
                     i += 5; fire(ctx, 'vec-empty'); continue
+            if i + 3 < n and toks[i + 1].t == '.' and toks[i + 2].t == 'push_back' and toks[i + 3].t == '(' and (ty + '_push_back') in ctx.sigs:
+                # v.push_back(x): growth of a result vector is a call of the (stub) primitive vec_T_push_back(&v, x)
+                out.append(Tok('id', ty + '_push_back', t.ws)); out.append(P('(', '')); out.extend(addr(ctx, t.t)); out.append(P(',', ''))
+                i += 4; fire(ctx, 'vec-push-back'); continue
             if i + 1 < n and toks[i + 1].t == '[':
                 out.extend([t, P(acc, ''), Tok('id', 'data', '')]); i += 1; fire(ctx, 'vec-index'); continue
             if i + 1 < n and toks[i + 1].t == '.' and ref:
@@ -661,7 +678,7 @@ def r_rangefor(ctx, toks):
 
 VEC_ELEM = {'vec_double': 'double', 'vec_ndsize': 'ndsize_t', 'vec_opt_pair': 'opt_pair', 'vec_pair': 'pair_ndsize',
             'vec_dpair': 'pair_double', 'vec_int': 'int', 'vec_NDSize': 'NDSize', 'vec_Dimension': 'Dimension',
-            'vec_nstr': 'nstring', 'vec_DataArray': 'DataArray', 'vec_DataView': 'DataView', 'vec_string': 'nstring'}
+            'vec_nstr': 'nstring', 'vec_DataArray': 'DataArray', 'vec_Source': 'Source', 'vec_Section': 'Section', 'vec_Variant': 'Variant', 'vec_DataView': 'DataView', 'vec_string': 'nstring'}
 
 def r_pair_ctor(ctx, toks):
     """pair_ndsize(a, b) -> mk_pair_ndsize(a, b)"""
@@ -886,6 +903,35 @@ def r_methods(ctx, toks):
     out = []; i = 0; n = len(toks)
     while i < n:
         t = toks[i]
+        # x . field . method (   with x a class-typed local and the field's class known (unit key field_types)
+        if t.k == 'id' and class_of(ctx, t.t) and i + 5 < n and toks[i + 1].t in ('.', '->') and toks[i + 2].k == 'id' and toks[i + 3].t == '.' and toks[i + 4].k == 'id' and toks[i + 5].t == '(' \
+                and (ctx.unit.get('field_types') or {}).get(class_of(ctx, t.t), {}).get(toks[i + 2].t) and (not out or out[-1].t not in ('.', '->')):
+            c = ctx.unit['field_types'][class_of(ctx, t.t)][toks[i + 2].t]
+            e = match_close(toks, i + 5)
+            out.append(Tok('id', resolve_overload(ctx, '%s_%s' % (c, toks[i + 4].t), toks[i + 6:e]), t.ws)); out.append(P('(', ''))
+            out.extend([P('&', ''), Tok('id', t.t, ''), P('->' if ctx.env[t.t][1] else '.', ''), Tok('id', toks[i + 2].t, '')])
+            if e > i + 6: out.append(P(',', ''))
+            i += 6; fire(ctx, 'method-call-field'); continue
+        # v [ idx ] . method (   with v a vector variable whose elements are class values
+        if t.k == 'id' and t.t in ctx.env and ctx.env[t.t][0] in VEC_TYPES and VEC_ELEM.get(ctx.env[t.t][0]) in ctx.unit.get('classes', ()) and i + 1 < n and toks[i + 1].t == '[' \
+                and (not out or out[-1].t not in ('.', '->')):
+            eb = match_close(toks, i + 1)
+            if eb + 3 < n and toks[eb + 1].t == '.' and toks[eb + 2].k == 'id' and toks[eb + 3].t == '(':
+                c = VEC_ELEM[ctx.env[t.t][0]]
+                e = match_close(toks, eb + 3)
+                out.append(Tok('id', resolve_overload(ctx, '%s_%s' % (c, toks[eb + 2].t), toks[eb + 4:e]), t.ws)); out.append(P('(', ''))
+                out.extend([P('&', ''), Tok('id', t.t, ''), P('->' if ctx.env[t.t][1] else '.', ''), Tok('id', 'data', '')]); out.extend(toks[i + 1:eb + 1])
+                if e > eb + 4: out.append(P(',', ''))
+                i = eb + 4; fire(ctx, 'method-call-element'); continue
+        # opt -> method (   : access through a boost::optional holding a class value
+        if t.k == 'id' and t.t in ctx.env and ctx.env[t.t][0] in OPT_PAYLOAD_CLASS and ctx.env[t.t][0] not in ctx.unit.get('classes', ()) and i + 3 < n and toks[i + 1].t == '->' and toks[i + 2].k == 'id' and toks[i + 3].t == '(' \
+                and (not out or out[-1].t not in ('.', '->')):
+            c = OPT_PAYLOAD_CLASS[ctx.env[t.t][0]]
+            e = match_close(toks, i + 3)
+            out.append(Tok('id', resolve_overload(ctx, '%s_%s' % (c, toks[i + 2].t), toks[i + 4:e]), t.ws)); out.append(P('(', ''))
+            out.extend([P('&', ''), Tok('id', t.t, ''), P('.', ''), Tok('id', 'val', '')])
+            if e > i + 4: out.append(P(',', ''))
+            i += 4; fire(ctx, 'method-call-optional'); continue
         # self -> m . method (
         if t.t == 'self' and seq_at(toks, i + 1, ['->']) and i + 5 < n and toks[i + 2].k == 'id' and toks[i + 3].t == '.' \
                 and toks[i + 4].k == 'id' and toks[i + 5].t == '(' and member_type(ctx, toks[i + 2].t) and member_type(ctx, toks[i + 2].t) not in VEC_TYPES:
@@ -981,6 +1027,11 @@ def r_local_refs(ctx, toks):
             rhs = toks[i + 4:j]
             q = [k for k, x in enumerate(rhs) if x.t == '?']
             c = [k for k, x in enumerate(rhs) if x.t == ':']
+            if not q and not c and i > 0 and toks[i - 1].t == 'const' and len(rhs) >= 3 and rhs[-1].t == ')' and match_open(rhs, len(rhs) - 1) >= 1:
+                # const T &x = <call>;  a read-only name for the call's result: by-value copy
+                out.extend([t, Tok('id', name, ' '), P('=')]); out.extend(rhs); out.append(P(';', ''))
+                ctx.env[name] = (t.t, False)
+                i = j + 1; fire(ctx, 'local-const-ref-copy'); continue
             if len(q) != 1 or len(c) != 1:
                 raise ExtractError('unsupported reference initialiser for %s' % name)
             def lv(ts):
@@ -1431,5 +1482,52 @@ def r_iterators(ctx, toks):
             nxt = toks[i + 1].t if i + 1 < n else ''
             if not (prev in ('++', '--', 'size_t') or nxt in ('++', '--')):
                 raise ExtractError('iterator %s used in a way the iterator-as-index rule does not cover' % t.t)
+        out.append(t); i += 1
+    return out
+
+
+def r_functor_calls(ctx, toks):
+    """f(args) where f is a variable / parameter of a function-object type Cls with a C function Cls_call  ->  Cls_call(f, args)"""
+    out = []; i = 0; n = len(toks)
+    while i < n:
+        t = toks[i]
+        if t.k == 'id' and t.t in ctx.env and (ctx.env[t.t][0] + '_call') in ctx.sigs and i + 1 < n and toks[i + 1].t == '(' and (not out or out[-1].t not in ('.', '->')) \
+                and not (out and out[-1].k == 'id' and out[-1].t == ctx.env[t.t][0]):
+            e = match_close(toks, i + 1)
+            out.append(Tok('id', ctx.env[t.t][0] + '_call', t.ws)); out.append(P('(', '')); out.extend(addr(ctx, t.t))
+            if e > i + 2: out.append(P(',', ''))
+            i += 2; fire(ctx, 'functor-call'); continue
+        out.append(t); i += 1
+    return out
+
+
+def r_template_calls(ctx, toks):
+    """f<T>(args)  with f listed in the unit's template_calls  ->  the C function named for that instantiation"""
+    tc = ctx.unit.get('template_calls') or {}
+    if not tc:
+        return toks
+    out = []; i = 0; n = len(toks)
+    while i < n:
+        t = toks[i]
+        if t.k == 'id' and t.t in tc and i + 1 < n and toks[i + 1].t == '<':
+            j = match_angle(toks, i + 1)
+            key = ' '.join(x.t for x in toks[i + 2:j])
+            if key not in tc[t.t] or toks[j + 1].t != '(':
+                raise ExtractError('no C function for the instantiation %s<%s>' % (t.t, key))
+            out.append(Tok('id', tc[t.t][key], t.ws)); i = j + 1; fire(ctx, 'template-call'); continue
+        out.append(t); i += 1
+    return out
+
+def r_brace_temporaries(ctx, toks):
+    """Cls{a, b}  (list-initialised temporary of a class with a C constructor function mk_Cls_brace_<n>)  ->  mk_Cls_brace_<n>(a, b)"""
+    out = []; i = 0; n = len(toks)
+    while i < n:
+        t = toks[i]
+        if t.k == 'id' and t.t in ctx.unit.get('classes', ()) and i + 1 < n and toks[i + 1].t == '{' and out and out[-1].t in ('(', ',', '=', 'return'):
+            e = match_close(toks, i + 1)
+            name = 'mk_%s_brace_%d' % (t.t, len(split_args(toks[i + 2:e])))
+            if name in ctx.sigs:
+                out.append(Tok('id', name, t.ws)); out.append(P('(', '')); out.extend(toks[i + 2:e]); out.append(P(')', ''))
+                i = e + 1; fire(ctx, 'brace-temporary'); continue
         out.append(t); i += 1
     return out
